@@ -409,14 +409,14 @@ package command
 //@   loop 0 row direct: [call newIPPortGenerator(_) as (g) ; call tcp.WithFillerVPNmode(o.vpnMode) as (vo) ; call tcp.NewPacketFiller(bind_fo) as (pf) ; call scan.NewPacketMultiGenerator(bind_pf2, _) as (pg) ;
 //@                       call scan.NewPacketSource(g, bind_pg2) as (ps) ; call scan.NewResultChan(ctx, _) as (rc) ; call tcp.WithPacketFilterFunc(c.packetFilter) as (o1) ;
 //@                       call tcp.WithPacketFlagsFunc(c.packetFlags) as (o2) ; call tcp.WithScanVPNmode(o.vpnMode) as (o3) ; call tcp.NewScanMethod(c.scanName, bind_ps2, rc, bind_mo) as (m)]
-//@                        when o.cache == nil && isptr(pf2, tcp.PacketFiller) && asptr(pf2, tcp.PacketFiller) == pf && ps2 == ps
+//@                        when pg2 == pg && o.cache == nil && isptr(pf2, tcp.PacketFiller) && asptr(pf2, tcp.PacketFiller) == pf && ps2 == ps
 //@                          && len(fo) == len(pre(c.packetFillerOpts)) + 1 && fo[len(pre(c.packetFillerOpts))] == vo
 //@                          && (forall k int :: 0 <= k && k < len(pre(c.packetFillerOpts)) ==> fo[k] == pre(c.packetFillerOpts[k]))
 //@                          && len(mo) == 3 && mo[0] == o1 && mo[1] == o2 && mo[2] == o3 && ret == m -> exit
 //@   loop 0 row cached: [call newIPPortGenerator(_) as (g) ; call arp.NewCacheRequestGenerator(g, o.gatewayMAC, o.cache) as (g2) ; call tcp.WithFillerVPNmode(o.vpnMode) as (vo) ; call tcp.NewPacketFiller(bind_fo) as (pf) ;
 //@                       call scan.NewPacketMultiGenerator(bind_pf2, _) as (pg) ; call scan.NewPacketSource(g2, bind_pg2) as (ps) ; call scan.NewResultChan(ctx, _) as (rc) ; call tcp.WithPacketFilterFunc(c.packetFilter) as (o1) ;
 //@                       call tcp.WithPacketFlagsFunc(c.packetFlags) as (o2) ; call tcp.WithScanVPNmode(o.vpnMode) as (o3) ; call tcp.NewScanMethod(c.scanName, bind_ps2, rc, bind_mo) as (m)]
-//@                        when o.cache != nil && isptr(pf2, tcp.PacketFiller) && asptr(pf2, tcp.PacketFiller) == pf && ps2 == ps
+//@                        when pg2 == pg && o.cache != nil && isptr(pf2, tcp.PacketFiller) && asptr(pf2, tcp.PacketFiller) == pf && ps2 == ps
 //@                          && len(fo) == len(pre(c.packetFillerOpts)) + 1 && fo[len(pre(c.packetFillerOpts))] == vo
 //@                          && (forall k int :: 0 <= k && k < len(pre(c.packetFillerOpts)) ==> fo[k] == pre(c.packetFillerOpts[k]))
 //@                          && len(mo) == 3 && mo[0] == o1 && mo[1] == o2 && mo[2] == o3 && ret == m -> exit
@@ -580,31 +580,31 @@ package command
 //@   opaque (*ipPortScanCmdOpts).newIPPortGenerator, arp.NewCacheRequestGenerator, udp.NewPacketFiller, scan.NewPacketMultiGenerator, scan.NewPacketSource, scan.NewResultChan, udp.NewScanMethod
 //@   entry row direct: [call newIPPortGenerator(_) as (g) ; call getUDPOptions(o) as (os) ; call udp.NewPacketFiller(os) as (pf) ; call scan.NewPacketMultiGenerator(bind_pf2, _) as (pg) ; call scan.NewPacketSource(g, bind_pg2) as (ps) ;
 //@                      call scan.NewResultChan(ctx, _) as (rc) ; call udp.NewScanMethod(ps, rc, o.vpnMode) as (m)]
-//@                       when o.cache == nil && isptr(pf2, udp.PacketFiller) && asptr(pf2, udp.PacketFiller) == pf && ret == m -> exit
+//@                       when pg2 == pg && o.cache == nil && isptr(pf2, udp.PacketFiller) && asptr(pf2, udp.PacketFiller) == pf && ret == m -> exit
 //@   entry row cached: [call newIPPortGenerator(_) as (g0) ; call newIPPortGenerator(_) as (g) ; call arp.NewCacheRequestGenerator(g, o.gatewayMAC, o.cache) as (g2) ; call getUDPOptions(o) as (os) ; call udp.NewPacketFiller(os) as (pf) ;
 //@                      call scan.NewPacketMultiGenerator(bind_pf2, _) as (pg) ; call scan.NewPacketSource(g2, bind_pg2) as (ps) ; call scan.NewResultChan(ctx, _) as (rc) ; call udp.NewScanMethod(ps, rc, o.vpnMode) as (m)]
-//@                       when o.cache != nil && isptr(pf2, udp.PacketFiller) && asptr(pf2, udp.PacketFiller) == pf && ret == m -> exit
+//@                       when pg2 == pg && o.cache != nil && isptr(pf2, udp.PacketFiller) && asptr(pf2, udp.PacketFiller) == pf && ret == m -> exit
 
 //@ func (*icmpCmdOpts).newICMPScanMethod
 //@   props C05 C11 C17 C01 C02 C13 C03 C14 C15 C16
 //@   observe getICMPOptions
 //@   opaque scan.NewIPGenerator, scan.NewFileIPGenerator, scan.NewIPRequestGenerator, scan.NewFilterIPRequestGenerator, arp.NewCacheRequestGenerator, icmp.NewPacketFiller, scan.NewPacketMultiGenerator, scan.NewPacketSource, scan.NewResultChan, icmp.NewScanMethod
 //@   entry row r000: [call scan.NewIPGenerator() as (ig) ; call scan.NewIPRequestGenerator(ig) as (g) ; call getICMPOptions(o) as (os) ; call icmp.NewPacketFiller(os) as (pf) ; call scan.NewPacketMultiGenerator(bind_pf2, _) as (pg) ; call scan.NewPacketSource(g, bind_pg2) as (ps) ; call scan.NewResultChan(ctx, _) as (rc) ; call icmp.NewScanMethod(ps, rc, o.vpnMode) as (m)]
-//@                       when len(o.ipFile) == 0 && o.excludeIPs == nil && o.cache == nil && isptr(pf2, icmp.PacketFiller) && asptr(pf2, icmp.PacketFiller) == pf && ret == m -> exit
+//@                       when pg2 == pg && len(o.ipFile) == 0 && o.excludeIPs == nil && o.cache == nil && isptr(pf2, icmp.PacketFiller) && asptr(pf2, icmp.PacketFiller) == pf && ret == m -> exit
 //@   entry row r001: [call scan.NewIPGenerator() as (ig) ; call scan.NewIPRequestGenerator(ig) as (g) ; call arp.NewCacheRequestGenerator(g, o.gatewayMAC, o.cache) as (g3) ; call getICMPOptions(o) as (os) ; call icmp.NewPacketFiller(os) as (pf) ; call scan.NewPacketMultiGenerator(bind_pf2, _) as (pg) ; call scan.NewPacketSource(g3, bind_pg2) as (ps) ; call scan.NewResultChan(ctx, _) as (rc) ; call icmp.NewScanMethod(ps, rc, o.vpnMode) as (m)]
-//@                       when len(o.ipFile) == 0 && o.excludeIPs == nil && o.cache != nil && isptr(pf2, icmp.PacketFiller) && asptr(pf2, icmp.PacketFiller) == pf && ret == m -> exit
+//@                       when pg2 == pg && len(o.ipFile) == 0 && o.excludeIPs == nil && o.cache != nil && isptr(pf2, icmp.PacketFiller) && asptr(pf2, icmp.PacketFiller) == pf && ret == m -> exit
 //@   entry row r010: [call scan.NewIPGenerator() as (ig) ; call scan.NewIPRequestGenerator(ig) as (g) ; call scan.NewFilterIPRequestGenerator(g, o.excludeIPs) as (g2) ; call getICMPOptions(o) as (os) ; call icmp.NewPacketFiller(os) as (pf) ; call scan.NewPacketMultiGenerator(bind_pf2, _) as (pg) ; call scan.NewPacketSource(g2, bind_pg2) as (ps) ; call scan.NewResultChan(ctx, _) as (rc) ; call icmp.NewScanMethod(ps, rc, o.vpnMode) as (m)]
-//@                       when len(o.ipFile) == 0 && o.excludeIPs != nil && o.cache == nil && isptr(pf2, icmp.PacketFiller) && asptr(pf2, icmp.PacketFiller) == pf && ret == m -> exit
+//@                       when pg2 == pg && len(o.ipFile) == 0 && o.excludeIPs != nil && o.cache == nil && isptr(pf2, icmp.PacketFiller) && asptr(pf2, icmp.PacketFiller) == pf && ret == m -> exit
 //@   entry row r011: [call scan.NewIPGenerator() as (ig) ; call scan.NewIPRequestGenerator(ig) as (g) ; call scan.NewFilterIPRequestGenerator(g, o.excludeIPs) as (g2) ; call arp.NewCacheRequestGenerator(g2, o.gatewayMAC, o.cache) as (g3) ; call getICMPOptions(o) as (os) ; call icmp.NewPacketFiller(os) as (pf) ; call scan.NewPacketMultiGenerator(bind_pf2, _) as (pg) ; call scan.NewPacketSource(g3, bind_pg2) as (ps) ; call scan.NewResultChan(ctx, _) as (rc) ; call icmp.NewScanMethod(ps, rc, o.vpnMode) as (m)]
-//@                       when len(o.ipFile) == 0 && o.excludeIPs != nil && o.cache != nil && isptr(pf2, icmp.PacketFiller) && asptr(pf2, icmp.PacketFiller) == pf && ret == m -> exit
+//@                       when pg2 == pg && len(o.ipFile) == 0 && o.excludeIPs != nil && o.cache != nil && isptr(pf2, icmp.PacketFiller) && asptr(pf2, icmp.PacketFiller) == pf && ret == m -> exit
 //@   entry row r100: [call scan.NewIPGenerator() as (ig0) ; call scan.NewFileIPGenerator(_) as (ig) ; call scan.NewIPRequestGenerator(ig) as (g) ; call getICMPOptions(o) as (os) ; call icmp.NewPacketFiller(os) as (pf) ; call scan.NewPacketMultiGenerator(bind_pf2, _) as (pg) ; call scan.NewPacketSource(g, bind_pg2) as (ps) ; call scan.NewResultChan(ctx, _) as (rc) ; call icmp.NewScanMethod(ps, rc, o.vpnMode) as (m)]
-//@                       when len(o.ipFile) > 0 && o.excludeIPs == nil && o.cache == nil && isptr(pf2, icmp.PacketFiller) && asptr(pf2, icmp.PacketFiller) == pf && ret == m -> exit
+//@                       when pg2 == pg && len(o.ipFile) > 0 && o.excludeIPs == nil && o.cache == nil && isptr(pf2, icmp.PacketFiller) && asptr(pf2, icmp.PacketFiller) == pf && ret == m -> exit
 //@   entry row r101: [call scan.NewIPGenerator() as (ig0) ; call scan.NewFileIPGenerator(_) as (ig) ; call scan.NewIPRequestGenerator(ig) as (g) ; call arp.NewCacheRequestGenerator(g, o.gatewayMAC, o.cache) as (g3) ; call getICMPOptions(o) as (os) ; call icmp.NewPacketFiller(os) as (pf) ; call scan.NewPacketMultiGenerator(bind_pf2, _) as (pg) ; call scan.NewPacketSource(g3, bind_pg2) as (ps) ; call scan.NewResultChan(ctx, _) as (rc) ; call icmp.NewScanMethod(ps, rc, o.vpnMode) as (m)]
-//@                       when len(o.ipFile) > 0 && o.excludeIPs == nil && o.cache != nil && isptr(pf2, icmp.PacketFiller) && asptr(pf2, icmp.PacketFiller) == pf && ret == m -> exit
+//@                       when pg2 == pg && len(o.ipFile) > 0 && o.excludeIPs == nil && o.cache != nil && isptr(pf2, icmp.PacketFiller) && asptr(pf2, icmp.PacketFiller) == pf && ret == m -> exit
 //@   entry row r110: [call scan.NewIPGenerator() as (ig0) ; call scan.NewFileIPGenerator(_) as (ig) ; call scan.NewIPRequestGenerator(ig) as (g) ; call scan.NewFilterIPRequestGenerator(g, o.excludeIPs) as (g2) ; call getICMPOptions(o) as (os) ; call icmp.NewPacketFiller(os) as (pf) ; call scan.NewPacketMultiGenerator(bind_pf2, _) as (pg) ; call scan.NewPacketSource(g2, bind_pg2) as (ps) ; call scan.NewResultChan(ctx, _) as (rc) ; call icmp.NewScanMethod(ps, rc, o.vpnMode) as (m)]
-//@                       when len(o.ipFile) > 0 && o.excludeIPs != nil && o.cache == nil && isptr(pf2, icmp.PacketFiller) && asptr(pf2, icmp.PacketFiller) == pf && ret == m -> exit
+//@                       when pg2 == pg && len(o.ipFile) > 0 && o.excludeIPs != nil && o.cache == nil && isptr(pf2, icmp.PacketFiller) && asptr(pf2, icmp.PacketFiller) == pf && ret == m -> exit
 //@   entry row r111: [call scan.NewIPGenerator() as (ig0) ; call scan.NewFileIPGenerator(_) as (ig) ; call scan.NewIPRequestGenerator(ig) as (g) ; call scan.NewFilterIPRequestGenerator(g, o.excludeIPs) as (g2) ; call arp.NewCacheRequestGenerator(g2, o.gatewayMAC, o.cache) as (g3) ; call getICMPOptions(o) as (os) ; call icmp.NewPacketFiller(os) as (pf) ; call scan.NewPacketMultiGenerator(bind_pf2, _) as (pg) ; call scan.NewPacketSource(g3, bind_pg2) as (ps) ; call scan.NewResultChan(ctx, _) as (rc) ; call icmp.NewScanMethod(ps, rc, o.vpnMode) as (m)]
-//@                       when len(o.ipFile) > 0 && o.excludeIPs != nil && o.cache != nil && isptr(pf2, icmp.PacketFiller) && asptr(pf2, icmp.PacketFiller) == pf && ret == m -> exit
+//@                       when pg2 == pg && len(o.ipFile) > 0 && o.excludeIPs != nil && o.cache != nil && isptr(pf2, icmp.PacketFiller) && asptr(pf2, icmp.PacketFiller) == pf && ret == m -> exit
 
 // VPN framing is selected exactly when the chosen range has no source MAC (C17)
 //@ func (*ipScanCmdOpts).parseOptions
@@ -635,6 +635,11 @@ package command
 //@   exit require ports:   call parsePortRanges(bind_s) as (pr, e) when len(pre(o.rawPortRanges)) > 0 && ret == nil then s == pre(o.rawPortRanges) && e == nil && len(o.portRanges) >= len(pr) && (forall k int :: 0 <= k && k < len(pr) ==> o.portRanges[k] == pr[k])
 //@   exit require file:    call parsePortsFile(_) as (pr, e) when len(pre(o.portFile)) > 0 && ret == nil then e == nil && len(o.portRanges) >= len(pr) && (forall k int :: 0 <= k && k < len(pr) ==> o.portRanges[len(o.portRanges) - len(pr) + k] == pr[k])
 //@   ensures workers: ret == nil ==> o.workers > 0
+//@   exit forbid norate:    call parseRateLimit(_) when len(pre(o.rawRateLimit)) == 0
+//@   exit forbid noexclude: call parseExcludeFile(_) when len(pre(o.rawExcludeFile)) == 0
+//@   exit forbid noports:   call parsePortRanges(_) when len(pre(o.rawPortRanges)) == 0
+//@   exit forbid nofile:    call parsePortsFile(_) when len(pre(o.portFile)) == 0
+//@   ensures plain: (len(old(o.rawRateLimit)) == 0 && len(old(o.rawExcludeFile)) == 0 && len(old(o.rawPortRanges)) == 0 && len(old(o.portFile)) == 0 && old(o.workers) > 0) ==> ret == nil
 //@ func (*packetScanCmdOpts).parseRawOptions
 //@   props C15 C18 C02 C17 C01 C03 C13
 //@   opaque parseExcludeFile
@@ -643,6 +648,11 @@ package command
 //@   exit require exclude: call parseExcludeFile(_) as (x, e) when len(pre(o.rawExcludeFile)) > 0 && ret == nil then e == nil && o.excludeIPs == x
 //@   exit require iface:   call net.InterfaceByName(bind_s) as (i, e) when len(pre(o.rawInterface)) > 0 && ret == nil then s == pre(o.rawInterface) && e == nil && o.iface == i
 //@   exit require srcmac:  call net.ParseMAC(bind_s) as (m, e) when len(pre(o.rawSrcMAC)) > 0 && ret == nil then s == pre(o.rawSrcMAC) && e == nil && o.srcMAC == m
+//@   exit forbid norate:    call parseRateLimit(_) when len(pre(o.rawRateLimit)) == 0
+//@   exit forbid noexclude: call parseExcludeFile(_) when len(pre(o.rawExcludeFile)) == 0
+//@   exit forbid noiface:   call net.InterfaceByName(_) when len(pre(o.rawInterface)) == 0
+//@   exit forbid nosrcmac:  call net.ParseMAC(_) when len(pre(o.rawSrcMAC)) == 0
+//@   ensures plain: (len(old(o.rawRateLimit)) == 0 && len(old(o.rawExcludeFile)) == 0 && len(old(o.rawInterface)) == 0 && len(old(o.rawSrcMAC)) == 0) ==> ret == nil
 //@ func (*ipPortScanCmdOpts).parseRawOptions
 //@   props C18 C01 C02 C03 C13
 //@   opaque (*ipScanCmdOpts).parseRawOptions, parsePortRanges, parsePortsFile
@@ -654,6 +664,8 @@ package command
 // remaining option plumbing
 //
 // target generator of the application scans: same choice as for the port scans
+//@   exit forbid noports:   call parsePortRanges(_) when len(pre(o.rawPortRanges)) == 0
+//@   exit forbid nofile:    call parsePortsFile(_) when len(pre(o.portFile)) == 0
 //@ func (*genericScanCmdOpts).newIPPortGenerator
 //@   props C01 C02 C13 C08 C03 C18
 //@   opaque scan.NewIPGenerator, scan.NewPortGenerator, scan.NewIPPortGenerator, scan.NewFileIPPortGenerator, scan.NewFileIPGenerator, scan.NewFilterIPRequestGenerator
@@ -743,18 +755,23 @@ package command
 //@   observe net.ParseMAC
 //@   exit require base:  call parseRawOptions(_) as (e) when ret == nil then e == nil
 //@   exit require gwmac: call net.ParseMAC(bind_s) as (m, e) when len(pre(o.rawGatewayMAC)) > 0 && ret == nil then s == pre(o.rawGatewayMAC) && e == nil && o.gatewayMAC == m
+//@   exit forbid nogwmac: call net.ParseMAC(_) when len(pre(o.rawGatewayMAC)) == 0
 //@ func (*icmpCmdOpts).parseRawOptions
 //@   props C05 C18 C01 C02 C03 C13
 //@   opaque (*ipScanCmdOpts).parseRawOptions, parseIPFlags, parsePacketPayload
 //@   exit require base:    call parseRawOptions(_) as (e) when ret == nil then e == nil
 //@   exit require ipflags: call parseIPFlags(bind_s) as (f, e) when len(pre(o.rawIPFlags)) > 0 && ret == nil then s == pre(o.rawIPFlags) && e == nil && o.ipFlags == f
 //@   exit require payload: call parsePacketPayload(bind_s) as (p, e) when len(pre(o.rawICMPPayload)) > 0 && ret == nil then s == pre(o.rawICMPPayload) && e == nil && o.icmpPayload == p
+//@   exit forbid noipflags: call parseIPFlags(_) when len(pre(o.rawIPFlags)) == 0
+//@   exit forbid nopayload: call parsePacketPayload(_) when len(pre(o.rawICMPPayload)) == 0
 //@ func (*udpCmdOpts).parseRawOptions
 //@   props C05 C18 C01 C02 C03 C13
 //@   opaque (*ipPortScanCmdOpts).parseRawOptions, parseIPFlags, parsePacketPayload
 //@   exit require base:    call parseRawOptions(_) as (e) when ret == nil then e == nil
 //@   exit require ipflags: call parseIPFlags(bind_s) as (f, e) when len(pre(o.rawIPFlags)) > 0 && ret == nil then s == pre(o.rawIPFlags) && e == nil && o.ipFlags == f
 //@   exit require payload: call parsePacketPayload(bind_s) as (p, e) when len(pre(o.rawUDPPayload)) > 0 && ret == nil then s == pre(o.rawUDPPayload) && e == nil && o.udpPayload == p
+//@   exit forbid noipflags: call parseIPFlags(_) when len(pre(o.rawIPFlags)) == 0
+//@   exit forbid nopayload: call parsePacketPayload(_) when len(pre(o.rawUDPPayload)) == 0
 //@ func (*tcpFlagsCmdOpts).parseRawOptions
 //@   props C05 C18 C01 C02 C03 C13
 //@   opaque (*ipPortScanCmdOpts).parseRawOptions, parseTCPFlags
